@@ -735,6 +735,12 @@ impl Ctx {
                 samples.push(json!({ "section": r.name, "case": s }));
             }
         }
+        if samples.is_empty() {
+            // a run that stopped at its first case: the failing case is what was explored
+            if let Some(f) = &self.failure {
+                samples.push(json!({ "section": f.section, "case": f.case, "failing": true }));
+            }
+        }
         let sections: Vec<Value> = self
             .reports
             .iter()
